@@ -198,6 +198,9 @@ class _OpTimeout(BaseException):
     pass
 
 
+_HANGS = [0]
+
+
 def run_op(plugin, line):
     """one operation on the real code; a hang of the code under test (default: 120 s for an operation that
     takes milliseconds) becomes the outcome 'hang', which no model output equals"""
@@ -206,19 +209,36 @@ def run_op(plugin, line):
     limit = int(getattr(plugin, "OP_TIMEOUT", 120))
     if limit <= 0:
         return plugin.impl(line)
+    # every hang is already a reportable outcome; after the first few the watchdog shortens so that a tree on
+    # which many operations hang still finishes (1st hang: full limit, 2nd-3rd: 20 s, later: 3 s)
+    if _HANGS[0] >= 3:
+        limit = min(limit, 3)
+    elif _HANGS[0] >= 1:
+        limit = min(limit, 20)
+
+    state = {"active": True}
 
     def handler(signum, frame):
-        raise _OpTimeout()
+        if state["active"]:
+            raise _OpTimeout()
 
+    # the timer repeats (every 0.5 s after the first expiry) until the operation has been left: one exception
+    # can be swallowed by the code under test or land in a cleanup of it that blocks again
     old = signal.signal(signal.SIGALRM, handler)
-    signal.alarm(limit)
+    signal.setitimer(signal.ITIMER_REAL, limit, 0.5)
     try:
-        return plugin.impl(line)
+        try:
+            return plugin.impl(line)
+        except _OpTimeout:
+            state["active"] = False
+            _HANGS[0] += 1
+            return "hang"
+        finally:
+            state["active"] = False
+            signal.setitimer(signal.ITIMER_REAL, 0)
+            signal.signal(signal.SIGALRM, old)
     except _OpTimeout:
         return "hang"
-    finally:
-        signal.alarm(0)
-        signal.signal(signal.SIGALRM, old)
 
 
 # --------------------------------------------------------------------------- findings
@@ -510,10 +530,15 @@ def main():
         sys.exit(setup())
     seed = int(os.environ.get("VERIF_SEED", "0") or 0)
     try:
-        sys.exit(check(a.property, a.tier, seed, a.replay))
+        code = check(a.property, a.tier, seed, a.replay)
     except Infra as exc:
         log("INFRASTRUCTURE FAILURE: %s" % exc)
-        sys.exit(2)
+        code = 2
+    # leave without joining threads: an operation judged 'hang' may have left a worker thread of the code under
+    # test blocked for ever, and the interpreter's normal shutdown would wait for it
+    sys.stdout.flush()
+    sys.stderr.flush()
+    os._exit(code)
 
 
 if __name__ == "__main__":
